@@ -400,6 +400,7 @@ def _destruction(prog, chk, R, ex):
             ctx += [n for n, m_, v_, rst in virtual_writes(prog, f, g) if m_ == 'm_currentClassCtx' and _ref_is(v_, cur)]
             ok = src_ok and bool(ctx) and g.must_precede(set(ctx), c)
             chk.ob('R08.2', f, c.ln or f.ln, ok, 'each level executes that level\'s destructor body, in that level\'s class context', key='dtor:level-body')
+    chk.count('destructor body loops', _fresh_return_flag(prog, chk, R, f), 1)
     rel = [c for c in g.calls(lambda e: e['k'] == 'mcall' and SX.short(e.get('callee', '')) in ('releaseQubit',))]
     if not rel:
         chk.ob('R08.2', f, f.ln, False, 'destroyObject releases the qubit fields of the object (no reachable release found)', key='dtor:release-exists')
@@ -1235,6 +1236,47 @@ def _base_inheritance_siblings(prog, chk, R):
                'base then differ in what they inherit' % (f.short, missing), key='base-copy-siblings:' + f.short)
 
 
+
+def _fresh_return_flag(prog, chk, R, f):
+    """R08.2 — every destructor body of the chain starts with the has-return flag cleared: a `return;` in a derived destructor leaves the flag
+    set, and a body loop entered with it set stops after its first statement (the rest of the base destructor is skipped silently).  For
+    each loop that runs body statements and breaks on the flag: no path leads from an executed statement, out of that loop, back to its
+    head without passing a `flag = false`."""
+    ex = R.ev_method('exec')
+    g = prog.cfg(f)
+    n = 0
+    for lp in SX.walk(f.body, into_lambdas=False):
+        if lp.get('k') not in ('for', 'forrange', 'while'):
+            continue
+        runs = [c for c in SX.walk(lp['body'], into_lambdas=False) if c.get('k') == 'mcall' and c.get('callee') == ex.name]
+        if not runs or any(l2 is not lp and l2.get('k') in ('for', 'forrange', 'while') and any(c is runs[0] for c in SX.walk(l2.get('body'), into_lambdas=False))
+                           for l2 in SX.walk(lp['body'], into_lambdas=False)):
+            continue      # (the innermost loop around the statement execution)
+        flag = None
+        for i_ in SX.walk(lp['body'], into_lambdas=False):
+            c_ = SX.strip(i_.get('c')) if i_.get('k') == 'if' else None
+            if SX.is_node(c_) and SX.is_this_member(c_) and c_.get('t') == 'bool' and any(b.get('k') == 'break' for b in SX.walk(i_['t'], into_lambdas=False)):
+                flag = c_['name']
+        if flag is None:
+            continue
+        n += 1
+        inside = {id(y) for y in SX.walk(lp, into_lambdas=False)}
+        head = [x for x in g.nodes if x.kind == 'loophead' and x.e is lp]
+        clears = [x for x, l, r, op in g.writes() if op == '=' and SX.is_this_member(SX.strip(l), flag) and SX.is_node(SX.strip(r)) and SX.strip(r).get('v') is False]
+        execs = [x for x in g.nodes if x.kind == 'call' and SX.is_node(x.e) and any(y is runs[0] for y in SX.walk(x.e, into_lambdas=False))]
+        if not head or not execs:
+            continue
+        after = g.reachable(execs, avoid=clears)
+        outside = [x for x in g.nodes if x.id in after and SX.is_node(x.e) and x.kind not in ('entry', 'exit')
+                   and not any(id(y) in inside for y in SX.walk(x.e, into_lambdas=False))]     # (synthetic loop-test nodes wrap the loop's own range)
+        back = g.reachable(outside, avoid=clears) if outside else set()
+        ok = head[0].id not in back
+        chk.ob('R08.2', f, lp.get('ln', f.ln), ok and bool(clears),
+               'the body loop of %s is entered with %s cleared: after a body was executed, every way back to the loop from outside it passes `%s = false` (a `return;` in a derived '
+               'destructor otherwise cuts every base destructor short after its first statement)' % (f.short, flag, flag), key='fresh-return-flag:' + f.short)
+    return n
+
+
 def _stamp_functions(prog, R):
     """functions that assign <value param>.className from declared type information (a RuntimeTypeInfo / Type* parameter), and
     functions that hand their value parameter on to one of those (fixpoint) → {key: (index of the value parameter, fn)}"""
@@ -1282,8 +1324,8 @@ def _stamp_functions(prog, R):
 def _stamped(prog, g, node, val, stampers):
     """val (the bound expression) is a call to a stamping function, or a variable that was passed to one / whose className was
     assigned on every path from its definition to `node`"""
-    if SX.is_node(val) and val.get('k') == 'call' and (val.get('callee') or '').startswith('std::move') and _args(val):
-        val = SX.strip(_args(val)[0])
+    while SX.is_node(val) and val.get('k') == 'call' and (val.get('callee') or '').startswith('std::move') and _args(val):
+        val = SX.strip(_args(val)[0])     # (a value handed on through a binding helper is moved once per hop)
     if SX.is_node(val) and val.get('k') in ('call', 'mcall'):
         for t in prog.resolve(val):
             if t.key in stampers:
